@@ -60,3 +60,134 @@ Proof.
   - change (Nat.ltb 0 (@length (Z * Q) [])) with false. nonconst l p l'. cbv iota. destruct l; rows_go.
   - nonconst l p l'. nonconst m p2 l2'. destruct l, m; rows_go.
 Qed.
+
+(* ---- Vector2Norm: the loop over the arguments ---- *)
+
+Definition nrows (k : nat) (a : aff) : list nat := match fst a with [] => [(k + 1)%nat] | l => repeat (k + 1)%nat (length l) end.
+Definition ncols (dummy : Z) (a : aff) : list Z := match fst a with [] => [dummy] | l => map (fun vc => fst vc) l end.
+Definition nvals (a : aff) : list Q := match fst a with [] => [0%Q] | l => map (fun vc => snd vc) l end.
+Definition nstep (dummy : Z) (st : list nat * list Z * list Q * list Q) (iarg : nat * aff) : list nat * list Z * list Q * list Q :=
+  let '(R, C, V, b) := st in
+  (R ++ nrows (fst iarg) (snd iarg), C ++ ncols dummy (snd iarg), V ++ nvals (snd iarg), set_nthQ' (fst iarg + 1) (snd (snd iarg)) b).
+
+Fixpoint RR (k : nat) (l : list aff) : list nat := match l with [] => [] | a :: l' => nrows k a ++ RR (S k) l' end.
+Fixpoint CC (dummy : Z) (l : list aff) : list Z := match l with [] => [] | a :: l' => ncols dummy a ++ CC dummy l' end.
+Fixpoint VV (l : list aff) : list Q := match l with [] => [] | a :: l' => nvals a ++ VV l' end.
+Fixpoint BB (k : nat) (l : list aff) (b : list Q) : list Q := match l with [] => b | a :: l' => BB (S k) l' (set_nthQ' (k + 1) (snd a) b) end.
+
+Lemma fold_left_ext3 {X Y} (f g : X -> Y -> X) : (forall s y, f s y = g s y) -> forall l s, fold_left f l s = fold_left g l s.
+Proof. intros H l. induction l as [|y l IH]; intro s; cbn [fold_left]; [reflexivity|]. rewrite H. apply IH. Qed.
+
+Lemma inner_fold : forall (l : list (Z * Q)) (C : list Z) (V : list Q),
+  fold_left (fun (st : list Z * list Q) (vc : Z * Q) => let '(A_cols, A_vals) := st in (A_cols ++ [fst vc], A_vals ++ [snd vc])) l (C, V)
+  = (C ++ map (fun vc => fst vc) l, V ++ map (fun vc => snd vc) l).
+Proof.
+  induction l as [|p l IH]; intros C V; cbn [fold_left map].
+  - rewrite !app_nil_r. reflexivity.
+  - rewrite IH, <- !app_assoc. reflexivity.
+Qed.
+
+Lemma nfold dummy : forall l k R C V b,
+  fold_left (nstep dummy) (combine (seq k (length l)) l) (R, C, V, b) = (R ++ RR k l, C ++ CC dummy l, V ++ VV l, BB k l b).
+Proof.
+  induction l as [|a l IH]; intros k R C V b; cbn [length seq combine fold_left RR CC VV BB].
+  - rewrite !app_nil_r. reflexivity.
+  - unfold nstep at 2. cbn [fst snd]. rewrite IH, <- !app_assoc. reflexivity.
+Qed.
+
+Lemma len_rc dummy k a : length (nrows k a) = length (ncols dummy a).
+Proof. unfold nrows, ncols. destruct (fst a); [reflexivity|]. rewrite repeat_length, map_length. reflexivity. Qed.
+Lemma len_cv dummy a : length (ncols dummy a) = length (nvals a).
+Proof. unfold ncols, nvals. destruct (fst a); [reflexivity|]. rewrite !map_length. reflexivity. Qed.
+
+Lemma te_single r k c v : trip_entries r [v] [k] [c] = if Nat.eqb k r then [(c, qe_of v)] else [].
+Proof. unfold trip_entries. cbn. destruct (Nat.eqb k r); reflexivity. Qed.
+
+Lemma te_arg dummy r k a : trip_entries r (nvals a) (nrows k a) (ncols dummy a) = if Nat.eqb (k + 1) r then fst (aff_row_dummy dummy a) else [].
+Proof.
+  unfold nvals, nrows, ncols, aff_row_dummy, aff_entries. destruct (fst a) as [|p l] eqn:E.
+  - rewrite te_single. reflexivity.
+  - rewrite (te_repeat r (k + 1) (fun vc => snd vc) (p :: l)). reflexivity.
+Qed.
+
+Definition in_rng (k n r : nat) : bool := Nat.leb (k + 1) r && Nat.ltb r (k + 1 + n).
+
+Lemma te_args dummy r : forall l k,
+  trip_entries r (VV l) (RR k l) (CC dummy l) = if in_rng k (length l) r then fst (aff_row_dummy dummy (nth (r - k - 1) l ([], 0%Q))) else [].
+Proof.
+  induction l as [|a l IH]; intro k; cbn [VV RR CC length].
+  - unfold in_rng. destruct (Nat.leb_spec (k + 1) r), (Nat.ltb_spec r (k + 1 + 0)); cbn [andb]; try reflexivity; lia.
+  - rewrite te_app by (apply len_rc || apply len_cv). rewrite te_arg, IH. unfold in_rng.
+    destruct (Nat.eqb_spec (k + 1) r) as [Hr|Hr].
+    + subst r. replace (k + 1 - k - 1) with 0 by lia. cbn [nth].
+      destruct (Nat.leb_spec (S k + 1) (k + 1)); [lia|]. cbn [andb]. rewrite app_nil_r.
+      destruct (Nat.leb_spec (k + 1) (k + 1)), (Nat.ltb_spec (k + 1) (k + 1 + S (length l))); cbn [andb]; try reflexivity; lia.
+    + cbn [app].
+      destruct (Nat.leb_spec (S k + 1) r), (Nat.ltb_spec r (S k + 1 + length l)), (Nat.leb_spec (k + 1) r), (Nat.ltb_spec r (k + 1 + S (length l)));
+        cbn [andb]; try reflexivity; try lia.
+      replace (r - k - 1) with (S (r - S k - 1)) by lia. reflexivity.
+Qed.
+
+Lemma set_len : forall b j v, length (set_nthQ' j v b) = length b.
+Proof. induction b as [|y b IH]; intros [|j] v; cbn [set_nthQ' length]; try reflexivity. rewrite IH. reflexivity. Qed.
+Lemma set_nth_same : forall b j v, j < length b -> nth j (set_nthQ' j v b) 0%Q = v.
+Proof. induction b as [|y b IH]; intros [|j] v H; cbn [set_nthQ' nth length] in *; try lia; [reflexivity|]. apply IH. lia. Qed.
+Lemma set_nth_other : forall b j r v, r <> j -> nth r (set_nthQ' j v b) 0%Q = nth r b 0%Q.
+Proof. induction b as [|y b IH]; intros [|j] [|r] v H; cbn [set_nthQ' nth]; try reflexivity; try lia. apply IH. lia. Qed.
+
+Lemma bb_len : forall l k b, length (BB k l b) = length b.
+Proof. induction l as [|a l IH]; intros k b; cbn [BB]; [reflexivity|]. rewrite IH. apply set_len. Qed.
+
+Lemma bb_nth r : forall l k b, k + 1 + length l <= length b ->
+  nth r (BB k l b) 0%Q = if in_rng k (length l) r then snd (nth (r - k - 1) l ([], 0%Q)) else nth r b 0%Q.
+Proof.
+  induction l as [|a l IH]; intros k b H; cbn [BB length] in *.
+  - unfold in_rng. destruct (Nat.leb_spec (k + 1) r), (Nat.ltb_spec r (k + 1 + 0)); cbn [andb]; try reflexivity; lia.
+  - rewrite IH by (rewrite set_len; lia). unfold in_rng.
+    destruct (Nat.eq_dec r (k + 1)) as [Hr|Hr].
+    + subst r. replace (k + 1 - k - 1) with 0 by lia. cbn [nth].
+      destruct (Nat.leb_spec (S k + 1) (k + 1)); [lia|]. cbn [andb]. rewrite set_nth_same by lia.
+      destruct (Nat.leb_spec (k + 1) (k + 1)), (Nat.ltb_spec (k + 1) (k + 1 + S (length l))); cbn [andb]; try reflexivity; lia.
+    + rewrite set_nth_other by exact Hr.
+      destruct (Nat.leb_spec (S k + 1) r), (Nat.ltb_spec r (S k + 1 + length l)), (Nat.leb_spec (k + 1) r), (Nat.ltb_spec r (k + 1 + S (length l)));
+        cbn [andb]; try reflexivity; try lia.
+      replace (r - k - 1) with (S (r - S k - 1)) by lia. reflexivity.
+Qed.
+
+Lemma map_seq_nth {Y} (G : aff -> Y) : forall l k, map (fun r => G (nth (r - k) l ([], 0%Q))) (seq k (length l)) = map G l.
+Proof.
+  induction l as [|a l IH]; intro k; cbn [length seq map]; [reflexivity|].
+  replace (k - k) with 0 by lia. cbn [nth]. f_equal. rewrite <- (IH (S k)). apply map_ext_in. intros r Hr. apply in_seq in Hr.
+  replace (r - k) with (S (r - S k)) by lia. reflexivity.
+Qed.
+
+Lemma gen_epi_norm2_equiv : gen_epi_norm2_equiv_stmt.
+Proof.
+  intros dummy t args. unfold gen_epi_block, gen_epi_norm2, epi_block. cbv zeta.
+  rewrite (fold_left_ext3 _ (nstep dummy)).
+  - rewrite nfold. rewrite Nat.add_1_r. f_equal.
+    unfold trip_rows. rewrite bb_len, repeat_length. cbn [seq map]. f_equal.
+    + cbn [app]. rewrite te_cons. cbn [Nat.eqb app]. rewrite te_args. unfold in_rng. cbn [Nat.leb Nat.add andb].
+      rewrite bb_nth by (rewrite repeat_length; lia). unfold in_rng. cbn [Nat.leb Nat.add andb]. reflexivity.
+    + rewrite <- (map_seq_nth (aff_row_dummy dummy) args 1). apply map_ext_in. intros r Hr. apply in_seq in Hr.
+      cbn [app]. rewrite te_cons. destruct r as [|r']; [lia|]. cbn [Nat.eqb app].
+      rewrite te_args, bb_nth by (rewrite repeat_length; lia). unfold in_rng, aff in *.
+      destruct (Nat.leb_spec (0 + 1) (S r')); [|lia]. destruct (Nat.ltb_spec (S r') (0 + 1 + length args)); [|lia]. cbn [andb].
+      replace (S r' - 0 - 1) with (S r' - 1) by lia.
+      unfold aff_row_dummy, aff in *. destruct (fst (nth (S r' - 1) args ([], 0%Q))); reflexivity.
+  - intros [[[R C] V] b] [i arg]. unfold nstep, nrows, ncols, nvals. cbn [fst snd].
+    destruct (fst arg) as [|p l] eqn:E.
+    + reflexivity.
+    + change (Nat.ltb 0 (length (p :: l))) with true. cbv iota. rewrite inner_fold. reflexivity.
+Qed.
+
+Lemma gen_epi_block_equiv : gen_epi_block_equiv_stmt.
+Proof.
+  intros dummy t [i|k args] H; [reflexivity|].
+  destruct k; cbn [atom_wf] in H.
+  - destruct args as [|x [|y r]]; try discriminate. apply gen_epi_exp_equiv.
+  - destruct args as [|x [|y r]]; try discriminate. apply gen_epi_abs_equiv.
+  - destruct args as [|x [|y r]]; try discriminate. apply gen_epi_pos_equiv.
+  - destruct args as [|x [|y [|z r]]]; try discriminate. apply gen_epi_relent_equiv.
+  - apply gen_epi_norm2_equiv.
+Qed.
